@@ -185,7 +185,7 @@ def handleForest (j : Json) : Except String Json := do
   let ann0 := annotate cfg script [] (flattenForest forest0 0)
   -- `empty_at n`: from event n on no tracepoint is installed = the gate refuses every action at its location
   let emptyAt := (← getOptInt j "empty_at").map Int.toNat
-  let ann := match emptyAt with
+  let ann : List Event := match emptyAt with
     | none => ann0
     | some n => ann0.zipIdx.map (fun (e, i) => if i ≥ n then { e with denied := actionsFor cfg e } else e)
   let forest := decorateForest forest0 (ann.map (fun e => e.denied))
